@@ -6,6 +6,7 @@ import CCVerif.Lemmas.EvalExamples8
 import CCVerif.Lemmas.EvalExamples7n
 import CCVerif.Lemmas.EvalNestedExamples
 import CCVerif.Lemmas.EvalBlocksPatExamples
+import CCVerif.Lemmas.EvalBlocksPatFilterExamples
 import CCVerif.Lemmas.EvalFuelTop
 import CCVerif.Lemmas.EvalFuelNorm
 import CCVerif.Lemmas.EvalFuelLoopsTop
@@ -1015,5 +1016,58 @@ example : Typed10 Examples7.env7 Examples10.q10 .logic :=
 example : (evaluate 30 Examples7.env7 Examples10.i10).1 = .ok (.s [.t [.e 1, .e 1], .t [.e 2, .e 2]]) := by decide
 example : (evaluate 30 Examples7.env7 Examples10.r10).1 = .ok (.t [.e 3, .e 3]) := by decide
 example : (evaluate 30 Examples7.env7 Examples10.q10).1 = .okBool true := by decide
+
+/-! ## stage 11: filters inside expressions with tuple patterns
+
+`Typed11` = `Typed10` with `PE2` (`Lemmas/EvalBlocksPatFilter.lean`: the rules of `PE` + congruence for both forms of
+`Fi…[…](…)`) for `PE`: the filter may stand in the domain of a pattern or in its scope, parameters and argument may use the
+leaves.  What could fault in the C++: `T().Component(i)` in `EvaluateFilterTuple` / `EvaluateFilterComplex` on the members
+of the argument - typed by stage 8 on the pattern-free form - and the projection chains of the leaves inside parameters
+and argument, read from the slot of the generated local.  Not covered: calls inside an expression with patterns. -/
+
+def Typed11 (env : Env) (e : Ast) (τ : ExprTy) : Prop :=
+  ∃ G es n f0, GlobalsOK env G ∧ FragF env G 6 [] [] es n τ ∧ PE2 (senvOf env) [] [] e es ∧
+    normalizeTree env.funcs f0 e = some n
+
+/-- **progress_preservation_partial11**: expressions with tuple patterns in any binding position and filters anywhere:
+evaluating the normalised tree never faults, a value has the type of the expression, a truth value exactly for LOGIC,
+errors are documented ones. -/
+theorem progress_preservation_partial11 : progress_preservation_statement Typed11 := by
+  intro env e τ ⟨G, es, n, f0, hG, hf, hu, hn⟩ fuel
+  rcases evaluate_blocksPatFilter hG hf hu hn fuel with hg | ho | ⟨eid, pos, he, hd⟩
+  · cases τ with
+    | ty ty =>
+      obtain ⟨v, hr, hw, _, _⟩ := hg
+      rw [hr]
+      exact ⟨ty, rfl, (hasTy_iff v ty).mp hw.1⟩
+    | logic =>
+      obtain ⟨b, hr, _⟩ := hg
+      rw [hr]; rfl
+  · rw [ho]; trivial
+  · rw [he]; exact hd
+
+/-- **never_stuck_partial11**: the possible outcomes on stage 11 -/
+theorem never_stuck_partial11 (env : Env) (e : Ast) (τ : ExprTy) (h : Typed11 env e τ) (fuel : Nat) :
+    (∃ v, (evaluate fuel env e).1 = .ok v) ∨ (∃ b, (evaluate fuel env e).1 = .okBool b) ∨
+    (evaluate fuel env e).1 = .outOfFuel ∨ (∃ eid pos, (evaluate fuel env e).1 = .err eid pos ∧ Documented eid) := by
+  obtain ⟨G, es, n, f0, hG, hf, hu, hn⟩ := h
+  rcases evaluate_blocksPatFilter hG hf hu hn fuel with hg | ho | ⟨eid, pos, he, hd⟩
+  · cases τ with
+    | ty ty => obtain ⟨v, hr, _⟩ := hg; exact Or.inl ⟨v, hr⟩
+    | logic => obtain ⟨b, hr, _⟩ := hg; exact Or.inr (Or.inl ⟨b, hr⟩)
+  · exact Or.inr (Or.inr (Or.inl ho))
+  · exact Or.inr (Or.inr (Or.inr ⟨eid, pos, he, hd⟩))
+
+/-- stage 10 is part of stage 11 -/
+theorem typed10_sub_typed11 (env : Env) (e : Ast) (τ : ExprTy) (h : Typed10 env e τ) : Typed11 env e τ := by
+  obtain ⟨G, es, n, f0, hG, hf, hu, hn⟩ := h
+  exact ⟨G, es, n, f0, hG, hf, hu.toPE2, hn⟩
+
+/-! non-vacuity (`Lemmas/EvalBlocksPatFilterExamples.lean`), `S = {1,2}×{1,2}`: `I{(a,b) | (a,b):∈S; (a,b)∈Fi1[{1}](S)}` has
+type `ℬ(Z×Z)` and evaluates to `{(1,1),(1,2)}` -/
+example : Typed11 Examples.env0 Examples11.i11 (.ty (.coll Examples11.ZZ)) :=
+  ⟨[], _, _, 10, by intro g τ h; simp [lookup] at h, Examples11.i11s_frag, Examples11.i11_pe, Examples11.i11_normalizes⟩
+example : (evaluate 30 Examples.env0 Examples11.i11).1 = .ok (.s [.t [.e 1, .e 1], .t [.e 1, .e 2]]) :=
+  Examples11.i11_value.1
 
 end CCVerif.Eval
